@@ -29,6 +29,7 @@ type Bind struct {
 	ClassToo   bool   // also declared in the task template with another transport (role level must win)
 	AtGroup    bool   // declared on the enclosing aggregator instead of the task role (inherited by the task)
 	Explicit   string // an explicit tcp:// or ipc:// target on the inbound channel: to be passed through unchanged (nobody connects to it by name)
+	GroupToo   bool   // (role-level declarations only) the enclosing aggregator declares a channel of the same name with another transport: the nearest declaration wins
 }
 
 type Connect struct {
@@ -40,13 +41,15 @@ type Connect struct {
 	Transport string
 	InClass   bool // the task template also declares this channel (without target: templates cannot carry targets); the role level supplies the target and wins
 	AtGroup   bool // declared on the enclosing aggregator instead of the task role
+	GroupToo  bool // (role-level declarations only) the enclosing aggregator declares the same channel name with a decoy target: the nearest declaration wins
 }
 
 type TaskSpec struct {
-	Host     int
-	Mode     string // direct | fairmq
-	Binds    []Bind
-	Connects []Connect
+	Host        int
+	NonCritical bool   // the task role says critical: false
+	Mode        string // direct | fairmq
+	Binds       []Bind
+	Connects    []Connect
 }
 
 type Case struct {
@@ -111,11 +114,24 @@ func run(c Case) (res vh.Result) {
 		for _, cn := range t.Connects {
 			if cn.AtGroup {
 				group += connYAML(cn, "      ")
+			} else if cn.GroupToo {
+				other := "zeromq"
+				if cn.Transport == "zeromq" {
+					other = "shmem"
+				}
+				group += fmt.Sprintf("      - name: %s\n        type: pull\n        transport: %s\n        target: \"tcp://decoy.invalid:1\"\n", cn.Name, other)
+				override = true
 			}
 		}
 		for _, b := range t.Binds {
 			if b.AtGroup && !b.InClass {
 				groupBind += bindYAML(b, b.Transport, "      ")
+			} else if b.GroupToo && !b.InClass {
+				other := "zeromq"
+				if b.Transport == "zeromq" {
+					other = "shmem"
+				}
+				groupBind += bindYAML(Bind{Name: b.Name, Addressing: b.Addressing}, other, "      ")
 			}
 		}
 		if groupBind != "" {
@@ -175,6 +191,9 @@ func run(c Case) (res vh.Result) {
 			sb.WriteString("        connect:\n" + rc)
 		}
 		fmt.Fprintf(&sb, "        task:\n          load: %s\n", cls)
+		if t.NonCritical {
+			sb.WriteString("          critical: false\n")
+		}
 		extra := ""
 		if cb != "" {
 			extra += "bind:\n" + cb
@@ -185,7 +204,9 @@ func run(c Case) (res vh.Result) {
 		w.WriteTask(cls, simworld.TaskClassYAML(cls, t.Mode, extra))
 	}
 	w.WriteWorkflow(wf, sb.String())
-	defer func() { res.History = map[string]interface{}{"workflow": sb.String(), "world_log_tail": w.LogLines(40)} }()
+	defer func() {
+		res.History = map[string]interface{}{"workflow": sb.String(), "world_log_tail": w.LogLines(40)}
+	}()
 	fail := func(sig, f string, a ...interface{}) vh.Result {
 		res.Violation = fmt.Sprintf(f, a...)
 		res.Signature = sig
@@ -338,7 +359,7 @@ func gen(t *rapid.T) Case {
 	n := rapid.IntRange(2, 6).Draw(t, "ntasks")
 	aliasN := 0
 	for i := 0; i < n; i++ {
-		ts := TaskSpec{Host: rapid.IntRange(0, 2).Draw(t, "host"), Mode: rapid.SampledFrom([]string{"direct", "fairmq"}).Draw(t, "mode")}
+		ts := TaskSpec{Host: rapid.IntRange(0, 2).Draw(t, "host"), Mode: rapid.SampledFrom([]string{"direct", "fairmq"}).Draw(t, "mode"), NonCritical: rapid.IntRange(0, 3).Draw(t, "nonCritical") == 0}
 		nb := rapid.IntRange(0, 3).Draw(t, "nbinds")
 		for j := 0; j < nb; j++ {
 			b := Bind{Name: fmt.Sprintf("in%d", j), Transport: rapid.SampledFrom([]string{"default", "zeromq", "shmem"}).Draw(t, "transport"),
@@ -352,6 +373,9 @@ func gen(t *rapid.T) Case {
 			}
 			if !b.InClass && !b.ClassToo && rapid.IntRange(0, 3).Draw(t, "bindAtGroup") == 0 {
 				b.AtGroup = true
+			}
+			if !b.InClass && !b.AtGroup && rapid.IntRange(0, 4).Draw(t, "bindGroupToo") == 0 {
+				b.GroupToo = true
 			}
 			if !b.InClass && !b.ClassToo && b.Global == "" && rapid.IntRange(0, 5).Draw(t, "explicitBind") == 0 {
 				b.Explicit = rapid.SampledFrom([]string{"tcp://*:31999", "ipc://@fixed-pipe", "tcp://*:47000"}).Draw(t, "explicitTarget")
@@ -393,6 +417,8 @@ func gen(t *rapid.T) Case {
 			cn.Kind = kind
 			if rapid.IntRange(0, 3).Draw(t, "atGroup") == 0 {
 				cn.AtGroup = true
+			} else if rapid.IntRange(0, 4).Draw(t, "groupToo") == 0 {
+				cn.GroupToo = true
 			}
 			c.Tasks[i].Connects = append(c.Tasks[i].Connects, cn)
 		}
@@ -430,6 +456,9 @@ func TestFixed(t *testing.T) {
 	un := append([]TaskSpec{}, prodcons...)
 	un = append(un, TaskSpec{Host: 2, Mode: "direct", Connects: []Connect{{Name: "lost", Kind: "unmatched", Transport: "default"}}})
 	vh.Fixed(t, prop, "unmatched-target", Case{Tasks: un}, vh.Confirmed(run))
+	un2 := append([]TaskSpec{}, prodcons...)
+	un2 = append(un2, TaskSpec{Host: 2, Mode: "direct", NonCritical: true, Connects: []Connect{{Name: "lost", Kind: "unmatched", Transport: "default"}}})
+	vh.Fixed(t, prop, "unmatched-target-on-a-non-critical-task", Case{Tasks: un2}, vh.Confirmed(run))
 	// two producers on two hosts, same alias: both get the same port number on their host
 	vh.Fixed(t, prop, "alias-conflict-same-port", Case{AliasConflict: true, Tasks: []TaskSpec{
 		{Host: 0, Mode: "fairmq", Binds: []Bind{{Name: "data", Transport: "zeromq", Addressing: "tcp", Global: "readout"}}},
@@ -441,6 +470,9 @@ func TestFixed(t *testing.T) {
 	vh.Fixed(t, prop, "inbound-channel-with-explicit-target", Case{Tasks: []TaskSpec{
 		{Host: 0, Mode: "fairmq", Binds: []Bind{{Name: "fixed", Transport: "zeromq", Addressing: "tcp", Explicit: "tcp://*:31999"}, {Name: "data", Transport: "zeromq", Addressing: "tcp"}}},
 		{Host: 1, Mode: "direct", Connects: []Connect{{Name: "in", Kind: "role", ToTask: 0, ToChan: 1, Transport: "default"}}}}}, vh.Confirmed(run))
+	vh.Fixed(t, prop, "nearest-declaration-wins-over-the-aggregator", Case{Tasks: []TaskSpec{
+		{Host: 0, Mode: "fairmq", Binds: []Bind{{Name: "data", Transport: "shmem", Addressing: "tcp", GroupToo: true}}},
+		{Host: 1, Mode: "fairmq", Connects: []Connect{{Name: "in", Kind: "role", ToTask: 0, ToChan: 0, Transport: "default", GroupToo: true}}}}}, vh.Confirmed(run))
 	vh.Fixed(t, prop, "role-level-wins", Case{Tasks: []TaskSpec{
 		{Host: 0, Mode: "fairmq", Binds: []Bind{{Name: "data", Transport: "shmem", Addressing: "tcp", ClassToo: true}}},
 		{Host: 1, Mode: "fairmq", Connects: []Connect{{Name: "in", Kind: "role", ToTask: 0, ToChan: 0, Transport: "default"}}}}}, vh.Confirmed(run))
